@@ -240,6 +240,100 @@ def gen_conn_replay(pid, tier, seed):
     V.log("%s: %d TLC-generated behaviours replayed on the real connection (TLC %.0fs), %d mismatches, %d crashes" % (tag, len(behaviours), time.time() - t0, len(mism), len(crashes)))
     return {"behaviours": len(behaviours), "scripts": scripts, "mismatches": mism, "crashes": crashes, "reads": sum(len(b) for b in behaviours)}
 
+# ---------------------------------------------------------------------------
+# binding self-test: corrupt ONE logged observable of a recorded trace and require TLC to object
+# ---------------------------------------------------------------------------
+def _corrupt(level, ev, cmp):
+    """Returns a description if the event was corrupted in place, else None."""
+    e = ev.get("e")
+    if level == "conn":
+        if e == "read" and "res" in cmp and ev.get("kind") == "data":
+            ev["res"]["k"] = "ConnectionClosed" if ev["res"]["k"] == "Ok" else "Ok"
+            return "read.res.k"
+        if e == "read" and "files" in cmp and ev.get("popped"):
+            ev["popped"][0]["files"] = ev["popped"][0]["files"] + [424242]
+            return "read.popped[0].files"
+        if e == "write" and ("sent" in cmp or "wres" in cmp) and ev.get("calls") == 1 and ev.get("sent"):
+            ev["sent"][0] = (ev["sent"][0] + 1) % 256
+            return "write.sent[0]"
+        if e == "read" and "recvs" in cmp:
+            ev["recvs"] = 2
+            return "read.recvs"
+        if e == "end" and "fam" in ev and ev.get("fam"):
+            return None
+    if level == "fn":
+        o = ev.get("out") or {}
+        if e in ("method", "version", "media") and "res" in o:
+            o["res"] = "bad" if o["res"] != "bad" else "GET"
+            return e + ".res"
+        if e == "hline" and "h" in o:
+            o["h"]["expect"] = not o["h"]["expect"]
+            return "hline.h.expect"
+        if e == "resp" and o.get("whole"):
+            o["whole"][0] = (o["whole"][0] + 1) % 256
+            return "resp.whole[0]"
+        if e == "router" and o.get("added"):
+            o["added"][0] = not o["added"][0]
+            return "router.added[0]"
+        if e == "oneshot" and "one" in o:
+            o["one"]["ok"] = not o["one"]["ok"]
+            return "oneshot.one.ok"
+        if e == "abspath":
+            o["ok"] = not o["ok"]
+            return "abspath.ok"
+        if e == "status" and o.get("raw"):
+            o["raw"][0] = 57
+            return "status.raw[0]"
+        if e == "enc" and "res" in o:
+            o["res"]["k"] = "fatal" if o["res"]["k"] == "ok" else "ok"
+            return "enc.res.k"
+        if e == "hblock":
+            o["ok"] = not o["ok"]
+            return "hblock.ok"
+    if level == "srv":
+        if e == "recv" and ev.get("state") == "data" and ev.get("bytes"):
+            ev["bytes"][0] = (ev["bytes"][0] + 1) % 256
+            return "recv.bytes[0]"
+    return None
+
+def binding_selftest(level, module, cfg_text, trace, tag, boundary):
+    """Copies the first runs of a recorded trace, corrupts one observable, and checks that the trace
+    specification reports a mismatch (and that the uncorrupted copy is accepted)."""
+    lines, cmp, done, what = [], set(), False, None
+    with open(trace) as f:
+        for i, line in enumerate(f):
+            if i > 4000:
+                break
+            if not line.strip():
+                continue
+            ev = json.loads(line)
+            if ev.get("e") == "new":
+                cmp = set(ev.get("cmp") or [])
+                if done and len(lines) > 50:
+                    break
+            if ev.get("e") == "reset" and done and len(lines) > 50:
+                break
+            if not done:
+                what = _corrupt(level, ev, cmp)
+                if what:
+                    done = True
+                    what = "%s (line %d)" % (what, len(lines) + 1)
+            lines.append(json.dumps(ev))
+    # keep whole runs / histories only
+    while lines and json.loads(lines[-1]).get("e") not in ("end", "endhist") and level != "fn":
+        lines.pop()
+    if not done or not lines:
+        return {"performed": False, "reason": "no corruptible observable in the first events"}
+    path = os.path.join(V.WORK, tag + ".selftest.ndjson")
+    open(path, "w").write("\n".join(lines) + "\n")
+    res = V.validate_trace(module, cfg_text, path, tag + "-selftest", nshards=1, boundary=boundary)
+    detected = sum(len(r["mismatches"]) for r in res) > 0
+    if any(r["error"] for r in res):
+        raise V.ToolError("binding self-test could not be validated: %s" % [r["error"] for r in res if r["error"]][0])
+    if not detected:
+        raise V.ToolError("binding self-test FAILED: corrupting %s was not noticed by %s" % (what, module))
+    return {"performed": True, "corrupted": what, "events": len(lines), "detected": True}
+
 def load_script(scripts_path, run):
     with open(scripts_path) as f:
         for i, line in enumerate(f):
@@ -327,6 +421,10 @@ def conn_property(pid, tier, seed, models, drivers, assumptions, design_ref, ext
     cres = []
     for i, (kind, gen) in enumerate(drivers):
         cres.append(conn_conformance(pid, tier, seed, kind, gen, "%s-%s-%d" % (pid, kind, i)))
+    selftest = None
+    if cres and not any(c["mismatches"] for c in cres):
+        c0 = cres[0]
+        selftest = binding_selftest("conn", "Trace_Conn.tla", TRACE_CFG % (1024 if c0["kind"] == "full" else 32), c0["trace"], pid, '"e":"new"')
     proj = CONN_PROJ[pid]
     for cr in cres:
         seen_runs = set()
@@ -427,6 +525,7 @@ def conn_property(pid, tier, seed, models, drivers, assumptions, design_ref, ext
                        + [{"generator": "fn:" + f["gen"], "cases": f["ncases"], "validated": f["events"], "mismatches": len(f["mismatches"]), "crashes": len(f["crashes"])} for f in fres],
         "out_of_projection": oop,
         "known_findings_hit": len(known_hits),
+        "binding_selftest": selftest,
         "design_ref": design_ref,
     }
     V.write_evidence(pid, tier, seed, cov, time.time() - t0, len(violations), assumptions)
@@ -668,6 +767,10 @@ def srv_property(pid, tier, seed, models, drivers, assumptions, design_ref):
             cres.append(gen_srv_replay(pid, tier, seed, domain))
         else:
             cres.append(srv_conformance(pid, tier, seed, kind, domain, nq if tier == "quick" else nt, "%s-%s-%d" % (pid, kind, i)))
+    selftest = None
+    if cres and not any(c["mismatches"] for c in cres):
+        c0 = cres[0]
+        selftest = binding_selftest("srv", "Trace_Srv.tla", srv_cfg(c0["kind"]), c0["trace"], pid, '"e":"reset"')
     evals, distinct, samples, total_div = 0, set(), [], 0
     for cr in cres:
         bad = {m["hist"]: m for m in cr["mismatches"] if "hist" in m}
@@ -717,6 +820,7 @@ def srv_property(pid, tier, seed, models, drivers, assumptions, design_ref):
         "conformance": [{"build": c["kind"], "domain": c["domain"], "trace_events_validated": c["events"], "divergent_histories": len(c["mismatches"])} for c in cres],
         "out_of_projection": oop,
         "known_findings_hit": len(known_hits),
+        "binding_selftest": selftest,
         "design_ref": design_ref,
     }
     V.write_evidence(pid, tier, seed, cov, time.time() - t0, len(violations), assumptions)
@@ -854,6 +958,9 @@ def fn_property(pid, tier, seed, models, gens, assumptions, design_ref, extra_co
             path = V.save_replay(pid, {"property": pid, "level": "model", "model": mname, "violated": r["violated"], "log": "work/tlc-%s.log" % mname})
             violations.append(("model:%s:%s" % (mname, r["violated"]), path))
     cres = [fn_conformance(pid, tier, seed, g, "%s-fn-%d" % (pid, i)) for i, g in enumerate(gens)]
+    selftest = None
+    if cres and not any(c["mismatches"] for c in cres):
+        selftest = binding_selftest("fn", "Trace_Fn.tla", FN_CFG, cres[0]["trace"], pid, '"e":')
     proj = FN_PROJ[pid]
     evals, distinct, samples = 0, set(), []
     for cr in cres:
@@ -907,7 +1014,7 @@ def fn_property(pid, tier, seed, models, gens, assumptions, design_ref, extra_co
         "models": [{"name": r["name"], "cfg": r["cfg"], "distinct_states": r["distinct"], "states_generated": r["states_generated"],
                     "witnesses_reached": r["witnesses"], "reused_from_cache": r.get("cached", False)} for r in mres],
         "conformance": [{"generator": c["gen"], "cases": c["ncases"], "validated": c["events"], "mismatches": len(c["mismatches"]), "crashes": len(c["crashes"])} for c in cres],
-        "out_of_projection": oop, "known_findings_hit": len(known_hits), "design_ref": design_ref,
+        "out_of_projection": oop, "known_findings_hit": len(known_hits), "binding_selftest": selftest, "design_ref": design_ref,
     }
     V.write_evidence(pid, tier, seed, cov, time.time() - t0, len(violations), assumptions)
     for k, sig in known_hits[:10]:
